@@ -119,6 +119,34 @@ int main()
                 std::printf("infm %u ok %ld both %ld none %ld ref-in %ld ref-both %ld\n", dim, ok, both, none, rin, rboth);
                 sp->freeState(st);
             }
+            else if (op == "INFS")
+            {   // INFS kind(direct|rejection) dim nstarts c cmin(<0: none) n seed: informed sampling with SEVERAL start states and one goal.
+                // own heuristic f(x) = min_i |x - start_i| + |x - goal|; counts: samples with f >= c, with f < cmin, and per start the
+                // samples that improve the solution only through that start; reference shares from an independent generator
+                std::string kind; unsigned dim, ns, n, seed; double c, cmin; in >> kind >> dim >> ns >> c >> cmin >> n >> seed; ompl::RNG::setSeed(seed);
+                auto sp = std::make_shared<ob::RealVectorStateSpace>(dim); sp->setBounds(-10, 10);
+                auto si = std::make_shared<ob::SpaceInformation>(sp); si->setStateValidityChecker([](const ob::State *) { return true; }); si->setup();
+                auto pdef = std::make_shared<ob::ProblemDefinition>(si);
+                const double S[4][2] = {{-6, -5}, {6, -5}, {0, 7}, {-7, 3}};
+                std::vector<std::vector<double>> starts; for (unsigned i = 0; i < ns && i < 4; ++i) { std::vector<double> r(dim, 0.0); r[0] = S[i][0]; r[1] = S[i][1]; starts.push_back(r); ob::ScopedState<> st(sp); sp->copyFromReals(st.get(), r); pdef->addStartState(st); }
+                std::vector<double> goal(dim, 0.0); { ob::ScopedState<> g(sp); sp->copyFromReals(g.get(), goal); pdef->setGoalState(g, 0.0); }   // threshold 0: the heuristic is the plain focal sum
+                pdef->setOptimizationObjective(std::make_shared<ob::PathLengthOptimizationObjective>(si));
+                std::shared_ptr<ob::InformedSampler> smp; if (kind == "direct") smp = std::make_shared<ob::PathLengthDirectInfSampler>(pdef, 100); else smp = std::make_shared<ob::RejectionInfSampler>(pdef, 100);
+                auto via = [&](const std::vector<double> &r, unsigned i) { double d1 = 0, d2 = 0; for (unsigned k = 0; k < dim; ++k) { d1 += (r[k] - starts[i][k]) * (r[k] - starts[i][k]); d2 += (r[k] - goal[k]) * (r[k] - goal[k]); } return std::sqrt(d1) + std::sqrt(d2); };
+                auto f = [&](const std::vector<double> &r) { double b = 1e300; for (unsigned i = 0; i < starts.size(); ++i) b = std::min(b, via(r, i)); return b; };
+                auto only = [&](const std::vector<double> &r) { int who = -1, cnt = 0; for (unsigned i = 0; i < starts.size(); ++i) if (via(r, i) < c) { who = (int)i; ++cnt; } return cnt == 1 ? who : -1; };
+                ob::State *st = sp->allocState(); long ok = 0, over = 0, under = 0, onlyc[4] = {0, 0, 0, 0};
+                for (unsigned k = 0; k < n; ++k)
+                {
+                    bool fnd = cmin < 0 ? smp->sampleUniform(st, ob::Cost(c)) : smp->sampleUniform(st, ob::Cost(cmin), ob::Cost(c));
+                    if (!fnd) continue; ++ok; std::vector<double> r; sp->copyToReals(r, st); double fv = f(r);
+                    if (!(fv < c * (1 + 1e-12))) ++over; if (cmin >= 0 && fv < cmin * (1 - 1e-12)) ++under; int w = only(r); if (w >= 0) ++onlyc[w];
+                }
+                std::mt19937_64 gen(seed * 977u + 11u); std::uniform_real_distribution<double> u(-10, 10); long rin = 0, ronly[4] = {0, 0, 0, 0}; std::vector<double> r(dim);
+                for (long k = 0; k < 8000000 && rin < 200000; ++k) { for (auto &v : r) v = u(gen); double fv = f(r); if (fv < c && (cmin < 0 || fv >= cmin)) { ++rin; int w = only(r); if (w >= 0) ++ronly[w]; } }
+                std::printf("infs %s %u %u ok %ld over %ld under %ld only %ld %ld %ld %ld ref-in %ld ref-only %ld %ld %ld %ld\n", kind.c_str(), dim, ns, ok, over, under, onlyc[0], onlyc[1], onlyc[2], onlyc[3], rin, ronly[0], ronly[1], ronly[2], ronly[3]);
+                sp->freeState(st);
+            }
         }
         catch (std::exception &ex) { std::printf("error %s\n", ex.what()); }
         std::fflush(stdout);
